@@ -199,7 +199,7 @@ class CHECK(Check):
                 allowed.setdefault('t1' if c[0] == 't' else 't2', set()).add((c[2], c[3], c[4]))
         if q['shape'] == 'sub_m':
             allowed.setdefault('t1', set()).add(('gt', 'a', 0))
-        if q['shape'] in ('t_m_sub', 'sub_m_t'):
+        if q['shape'] in ('t_m_sub', 'sub_m_t', 'cte_named_like_table'):
             allowed.setdefault('t2', set()).add(('gt', 'b', 0))
         for t in q['tables']:
             for c in t.get('allowed_on', ()):
